@@ -133,7 +133,7 @@ fn gutf8(b: &[u8]) -> Option<Vec<(u32, usize)>> {
     Some(out)
 }
 
-fn enc_cp(cp: u32) -> Vec<u8> {
+pub fn enc_cp(cp: u32) -> Vec<u8> {
     if cp < 0x80 {
         vec![cp as u8]
     } else if cp < 0x800 {
